@@ -43,6 +43,9 @@ func (cliStream) Generate(rng *rand.Rand, tier string, emit func(Case)) {
 		if i%3 != 0 {
 			l = genCleanLayout(rng) // the tool stops at the first cache error: most cases must be error-free
 		}
+		if len(l.Dirs) == 0 {
+			l.Dirs = []string{"p:A"} // without --spec-dirs the tool uses the default directories: not this stream's subject
+		}
 		// keep directory kinds the tool can be pointed at; drop kinds that need unusual paths
 		lj, _ := json.Marshal(l)
 		var lm map[string]any
@@ -73,7 +76,7 @@ func (cliStream) Generate(rng *rand.Rand, tier string, emit func(Case)) {
 			docs = append(docs, map[string]any{"doc": docToProto(d2), "yaml": rng.Intn(2) == 0})
 		}
 		emit(Case{"op": "validatetool", "docs": docs, "label": label, "schema": []string{"builtin", "none"}[rng.Intn(4)/3],
-			"stdin": len(docs) == 1 && rng.Intn(4) == 0})
+			"stdin": len(docs) == 1 && rng.Intn(2) == 0})
 	}
 }
 
